@@ -234,6 +234,8 @@ def gen_history(r, L):
                 continue  # the step rebinds process-global import state; only on the single main actor
             a, b = r.sample(range(len(RELOAD_VARIANTS)), 2)
             steps.append({"k": "reload", "a": a, "b": b})
+        elif x < 0.77:
+            steps.append({"k": "closure", "limits": [r.randint(1, 50), r.randint(1, 50)], "x": r.randint(60, 99)})
         elif x < 0.8:
             steps.append({"k": "noise", "x": -r.randint(1, 100)})
         elif x < 0.9:
@@ -264,6 +266,28 @@ def run_history(L, h, by_id):
         k = st["k"]
         if k == "clearcache":
             linecache.clearcache()
+            return
+        if k == "closure":
+            # the same condition object violates twice with its closure variable re-bound in between; the second message
+            # must be the one a fresh twin (same source line) gives for the new binding
+            fn, set_limit = L.make_limited()
+            set_limit(st["limits"][0])
+            msgs = []
+            for lim in st["limits"]:
+                set_limit(lim)
+                try:
+                    fn(x=st["x"])
+                    msgs.append("NO-VIOLATION")
+                except icontract.ViolationError as e:
+                    msgs.append(str(e))
+            twin, set2 = L.make_limited()
+            set2(st["limits"][1])
+            try:
+                twin(x=st["x"])
+                ref = "NO-VIOLATION"
+            except icontract.ViolationError as e:
+                ref = str(e)
+            results.append(("__closure__", tuple(st["limits"]), (msgs[-1], ref), {}))
             return
         if k == "reload":
             after, ref = _reload_step(st, icontract)
@@ -375,6 +399,19 @@ def worker(argv):
         for cid, order, msg, kw in res:
             if cid == "__stats__":
                 handoffs += msg[1]
+                continue
+            if cid == "__closure__":
+                n_msgs += 1
+                if msg[0] != msg[1]:
+                    violations.append(
+                        {
+                            "rule": "C20.R1",
+                            "classifier": "message-depends-on-earlier-violation-of-the-same-condition",
+                            "detail": {"case": "closure", "limits": list(order), "second_violation": msg[0][:300], "fresh_twin": msg[1][:300], "history": hi},
+                            "widx": widx,
+                            "history": hi,
+                        }
+                    )
                 continue
             if cid == "__reload__":
                 n_msgs += 1
